@@ -333,10 +333,22 @@ package cache
 //@   assert at `sc.mu.Unlock()` [excerpt-recomputed] (id in sc.cached) ==> (id in sc.excerpts) && excerptFrom[sc.excerpts[id]] == sc.cached[id]
 //@   ensures [indexed] result == nil ==> repository.indexOps == old(repository.indexOps) + 1
 
+// (C14, C11) ... and when it reports success the entity's refs have been removed through the entity layer, its
+// entry in the table of loaded entities and its excerpt are gone (both deleted in the critical section that
+// follows the removal of the refs) and its document has been removed from the search index.
+//@ ghost var lastRemovedEntity entity.Id
+//@ ghost var entityRemovals int
+//@ func Actions.Remove
+//@   modifies lastRemovedEntity, entityRemovals, repository.refs, repository.mutSeq, repository.refMutSeq
+//@   ensures result == nil ==> entityRemovals == old(entityRemovals) + 1 && lastRemovedEntity == id
+//@   ensures result != nil ==> entityRemovals == old(entityRemovals)
 //@ func (*SubCache).Remove
-//@   props C18
+//@   props C18 C14 C11
 //@   opt locks
+//@   stable entityRemovals, lastRemovedEntity, repository.indexedDocs
 //@   requires [not-held] sc != nil && sync.rwheld[&sc.mu] == 0
+//@   assert at `index, err := sc.repo.GetIndex(sc.namespace)` [cache-entries-deleted] !(e.Id() in sc.cached) && !(e.Id() in sc.excerpts) && entityRemovals == old(entityRemovals) + 1 && lastRemovedEntity == e.Id()
+//@   check [index-document-removed] result == nil ==> !repository.indexedDocs[string(e.Id())] && entityRemovals == old(entityRemovals) + 1
 //@   ensures [lock-balanced] forall m *sync.RWMutex :: { sync.rwheld[m] } sync.rwheld[m] == old(sync.rwheld[m])
 
 //@ func (*SubCache).RemoveAll
